@@ -1,32 +1,4 @@
 // ---- shared specification: renet Packet (payload byte counts, wire sizes); spec functions and lemmas only ----
-pub open spec fn bytes_total(s: Seq<Bytes>) -> nat
-    decreases s.len(),
-{
-    if s.len() == 0 { 0 } else { bytes_total(s.drop_last()) + s.last()@.len() }
-}
-
-pub proof fn lemma_bytes_total_push(s: Seq<Bytes>, b: Bytes)
-    ensures bytes_total(s.push(b)) == bytes_total(s) + b@.len(),
-{
-    assert(s.push(b).drop_last() =~= s);
-}
-
-pub proof fn lemma_bytes_total_pop_front(s: Seq<Bytes>)
-    requires s.len() > 0,
-    ensures bytes_total(s) == s[0]@.len() + bytes_total(s.subrange(1, s.len() as int)),
-    decreases s.len(),
-{
-    let t = s.subrange(1, s.len() as int);
-    if s.len() == 1 {
-        assert(s.drop_last() =~= Seq::<Bytes>::empty());
-        assert(t =~= Seq::<Bytes>::empty());
-    } else {
-        lemma_bytes_total_pop_front(s.drop_last());
-        assert(s.drop_last().subrange(1, s.len() - 1) =~= t.drop_last());
-        assert(t.last() == s.last());
-    }
-}
-
 pub open spec fn pairs_total(s: Seq<(u64, Bytes)>) -> nat
     decreases s.len(),
 {
